@@ -12,6 +12,7 @@ from mirsym.harness import *
 from mirsym.engine import NONE, SOME, It
 
 ID = 'C20'
+TECHNIQUE = 'symbolic execution of rustc MIR (path-forking) + z3 SMT queries per path; counterexamples replayed against the compiled code; thorough tier adds a Kani/CBMC harness for hex_util::common_hex_len'
 CRATES = ['jj-lib', 'jj-core']
 NATIVE = 'c20'
 KANI = ['c20_common_hex_len_3']
